@@ -153,17 +153,16 @@ def callers_closure(prog, f):
     return list(seen.values())
 
 
-_INL_CACHE = {}
-
-
 def inlined(prog, f, **kw):
-    """Cached Inliner(prog, **kw).inline(f) (no caching for callable options)."""
+    """Cached Inliner(prog, **kw).inline(f) (no caching for callable options).  The cache lives on the
+    program object itself (never keyed by id(): ids are reused once a program is collected)."""
     if any(callable(v) for v in kw.values()):
         return Inliner(prog, **kw).inline(f)
-    key = (id(prog), f.q, tuple(sorted(kw.items())))
-    if key not in _INL_CACHE:
-        _INL_CACHE[key] = Inliner(prog, **kw).inline(f)
-    return _INL_CACHE[key]
+    cache = prog.__dict__.setdefault('_inl_cache', {})
+    key = (f.q, tuple(sorted(kw.items())))
+    if key not in cache:
+        cache[key] = Inliner(prog, **kw).inline(f)
+    return cache[key]
 
 
 def contexts(prog, site_pred, files=None, **kw):
